@@ -3,20 +3,42 @@
 
   The rendering to an expression tree, the import computation and the naming of generated TypedDict classes are modelled
   (Model/Render.lean) and compared with the implementation as text on every generated type.  That evaluating the rendered text
-  with the names the stub provides gives back the rendered type is checked directly on the implementation (the stub's import
-  block is really executed); it is NOT a Lean theorem (FULL STATEMENT below).  Two defects of the pinned tree that violate it
+  with the names the stub provides gives back the rendered type is a theorem for the TypedDict-free fragment
+  (`rendered_denotes_partial`, over the evaluator of Model/EvalAnno.lean, which is itself compared with the real evaluation of
+  the stub text), and is checked directly on the implementation for every generated stub (the import block is really executed).  Two defects of the pinned tree that violate it
   are open known findings (known_findings.txt).
 -/
 import MTVerif.Model.Render
 import MTVerif.Model.TdSize
+import MTVerif.Lemmas.EvalAnno
 namespace MT.C11
 open MT MT.Render
 
-/-- FULL STATEMENT (evaluated, not proved): for an evaluator `evalAnno` of annotation expressions in the environment built
-    from the stub's imports, class stubs, builtins and the target module's own classes, the rendered annotation of every type
-    that can reach the renderer evaluates to a type equal (as Python `==`) to the one rendered. -/
-def RenderedDenotes (evalAnno : List (String × String) → Expr → Option Ty) : Prop :=
-  ∀ (nm : Names) (t : Ty), t.hasTD = false → ∃ t', evalAnno (importsOf nm t) (renderE nm t) = some t' ∧ Ty.eqv t t' = true
+/-- FULL STATEMENT (evaluated on every generated stub, proved below for the TypedDict-free fragment): in the namespace `ns` a
+    stub provides (its import block executed in order over builtins and the target module's classes, plus — for types with
+    anonymous TypedDicts — the generated class stubs), the rendered and module-stripped annotation of every type evaluates
+    to a type with exactly the members of the type that was rendered. -/
+def RenderedDenotes (sub : ClassId → ClassId → Bool) (evalWithClasses : NS → Expr → Option Ty)
+    (renderWithClasses : Names → Ty → Expr) : Prop :=
+  ∀ (ns : NS) (nm : Names) (mods : List (List String)) (t : Ty),
+    ∃ t', evalWithClasses ns (stripE mods (renderWithClasses nm t)) = some t' ∧ ∀ v, conforms sub true t' v = conforms sub true t v
+
+/-- C11, denotation, TypedDict-free fragment (`…_partial`: the excluded inputs are exactly the decidable hypothesis `namesOk`,
+    i.e. some name of the annotation resolves, in the stub's namespace, to something other than what was rendered — the
+    recorded finding KF-C11-same-name-two-modules is its witness below).  For every TypedDict-free type, every class-name
+    table, every list of stripped module prefixes and every namespace in which each name the annotation uses denotes what
+    was rendered: evaluating the rendered, stripped annotation gives a type with exactly the same members, under both
+    readings of `Any`. -/
+theorem rendered_denotes_partial (sub : ClassId → ClassId → Bool) (ao : Bool) (ns : NS) (nm : Names) (mods : List (List String))
+    (t : Ty) (ht : t.hasTD = false) (hn : namesOk ns nm mods t = true) :
+    ∃ t', evalE ns (stripE mods (renderE nm t)) = some t' ∧ ∀ v, conforms sub ao t' v = conforms sub ao t v := by
+  obtain ⟨t', he, _, hs⟩ := eval_render sub ao ns nm mods t ht hn
+  exact ⟨t', he, hs⟩
+
+/-- `typing.Union[...]` admits exactly what one of its arguments admits (so `Optional[Union[A, B]]` and
+    `Union[A, None, B]` are the same type) -/
+theorem union_members (sub : ClassId → ClassId → Bool) (ao : Bool) (ts : List Ty) (hw : ∀ t ∈ ts, t.wf = true) (v : Val) :
+    conforms sub ao (mkUnion ts) v = conformsAny sub ao ts v := mkUnion_conforms sub ao ts hw v
 
 /-- a union without NoneType is rendered as Union[...] of its members, in order -/
 theorem union_without_none (nm : Names) (ts : List Ty) (h : ts.any isNoneTy = false) :
@@ -81,6 +103,36 @@ theorem td_fields_imported (nm : Names) (req opt : List (String × Ty)) (k : Str
   rcases h with h | h
   · exact Or.inl (importsF_mem nm req k t h i hi)
   · exact Or.inr (importsF_mem nm opt k t h i hi)
+
+/-! ### non-vacuity of `rendered_denotes_partial`, and the witness of the excluded case -/
+
+def demoNm : Names where
+  cls c := if c == noneC then ("builtins", "NoneType") else if c == intC then ("builtins", "int")
+           else if c == 40 then ("utils", "B") else if c == 41 then ("pkg.utils", "B") else if c == 42 then ("nest", "Outer.Inner")
+           else ("builtins", "object")
+  func _ := ("m", "f")
+
+def demoInv (m : String) (parts : List String) : Option ClassId :=
+  if m == "builtins" && parts == ["int"] then some intC
+  else if m == "utils" && parts == ["B"] then some 40
+  else if m == "pkg.utils" && parts == ["B"] then some 41
+  else if m == "nest" && parts == ["Outer", "Inner"] then some 42
+  else none
+
+/-- `Dict[int, Optional[List[Outer.Inner]]]` with utils.B as a tuple member: every name resolves -/
+def goodTy : Ty := .dict (.cls intC) (.union [.list (.cls 42), .cls noneC, .tuple [.cls 40, .any]])
+def goodNS : NS := { imports := [("nest", "Outer"), ("typing", "Any"), ("typing", "Dict"), ("typing", "List"), ("typing", "Optional"),
+                                 ("typing", "Tuple"), ("typing", "Union"), ("utils", "B")], own := "target", inv := demoInv }
+def goodMods : List (List String) := [["typing"], ["utils"], ["nest"]]
+
+example : goodTy.hasTD = false ∧ namesOk goodNS demoNm goodMods goodTy = true := by decide +kernel
+
+/-- the same-name finding: utils.B and pkg.utils.B in one stub — `B` denotes pkg.utils.B after both imports have run, so the
+    hypothesis fails for utils.B (and the implementation's stub indeed denotes the wrong class) -/
+def clashNS : NS := { imports := [("pkg.utils", "B"), ("typing", "Tuple"), ("utils", "B")], own := "target", inv := demoInv }
+example : namesOk clashNS demoNm [["pkg", "utils"], ["typing"], ["utils"]] (.tuple [.cls 40, .cls 41]) = false := by decide +kernel
+example : (evalE clashNS (stripE [["pkg", "utils"], ["typing"], ["utils"]] (renderE demoNm (.tuple [.cls 40, .cls 41])))).map
+    (Ty.beq' · (.tuple [.cls 40, .cls 40])) = some true := by decide +kernel
 
 /-! the witnesses of the open findings, in the model -/
 example : hasNameCollision (tdNames "a" (.tuple [.tuple [.cls intC, .td [("p", .cls intC)] []], .td [("q", .cls strC)] []])) = true := by
